@@ -404,6 +404,7 @@ def compute_conditional(
         )
     elif (
         pre_transformation is not None
+        and Lp is not None
         and pre_transformation.shape[0] == landmarks.shape[0]
     ):
         logger.debug("Using LandmarksConditionalCholesky GP.")
@@ -532,6 +533,7 @@ def compute_conditional_times(
         )
     elif (
         pre_transformation is not None
+        and Lp is not None
         and pre_transformation.shape[0] == landmarks.shape[0]
     ):
         logger.debug("Using LandmarksConditionalCholesky GP.")
@@ -660,6 +662,7 @@ def compute_conditional_explog(
         )
     elif (
         pre_transformation is not None
+        and Lp is not None
         and pre_transformation.shape[0] == landmarks.shape[0]
     ):
         logger.debug("Using LandmarksConditionalCholesky GP.")
